@@ -193,11 +193,14 @@ class Tokenizer:
         last_code = 0  # last line holding something other than a comment
         lines = {}
         start = end = self._tokens[-1].end
-        for idx, tok in enumerate(self._tokengen):
-            if (idx == 0) and tok.type == Token.NEWLINE:
-                is_block = True
-                continue
-            elif tok.type == Token.INDENT:
+        header: list[TokenInfo] | None = []  # blanks and a comment between the colon and the end of the header line
+        for tok in self._header_first(header):
+            if header is not None:
+                header = None
+                if tok.type == Token.NEWLINE:
+                    is_block = True
+                    continue
+            if tok.type == Token.INDENT:
                 if is_block and (not is_indented) and (not last_code):
                     # blank and comment lines may come before the first line of the block
                     is_indented = True
@@ -244,6 +247,28 @@ class Tokenizer:
 
             string = textwrap.dedent(string)
         return TokenInfo(Token.MACRO_PARAM, string, start, end, string)
+
+    def _header_first(self, skipped: list[TokenInfo]) -> Iterator[TokenInfo]:
+        """The tokens after the colon of a with-macro header.  Blanks and a comment in front of the line end belong to
+        the header if an indented block follows; otherwise they are (the start of) a one-line body."""
+        for tok in self._tokengen:
+            if tok.type in (Token.WS, Token.COMMENT):
+                skipped.append(tok)
+                continue
+            if tok.type == Token.NEWLINE and skipped:
+                following = [next(self._tokengen)]
+                while following[-1].type in (Token.NL, Token.COMMENT, Token.WS):  # blank and comment lines
+                    following.append(next(self._tokengen))
+                if following[-1].type == Token.INDENT:
+                    yield tok
+                    yield from following
+                    break
+                self._stack.extend(reversed(following))  # the one-line body ends at this NEWLINE: the parser goes on from here
+            yield from skipped
+            yield tok
+            break
+        for tok in self._tokengen:  # (not ``yield from``: closing this generator must not close the token stream)
+            yield tok
 
     def _syntax_error(self, message: str, tok: TokenInfo) -> SyntaxError:
         filename = self._path.replace("\\", "/").rsplit("/", 1)[-1] or "<unknown>"
